@@ -3,6 +3,6 @@
 cd /verif
 P=${1:-3}
 {
-  for d in seeded/*/; do n=$(basename $d); c=$(/venv/bin/python -c "import json,sys;print(json.load(open(sys.argv[1])).get('checked_with',sys.argv[2]))" $d/meta.json ${n%%-*}); echo "seed $n $c /verif/$d/patch.diff"; done
+  for d in seeded/*/; do n=$(basename $d); if grep -q '"obsolete"' $d/meta.json; then echo "seed $n: OBSOLETE (the library no longer lets this change break the property; see meta.json)" >&2; continue; fi; c=$(/venv/bin/python -c "import json,sys;print(json.load(open(sys.argv[1])).get('checked_with',sys.argv[2]))" $d/meta.json ${n%%-*}); echo "seed $n $c /verif/$d/patch.diff"; done
   for m in mutants/*/*.json; do echo "mutant $(basename $m .json) $(basename $(dirname $m)) /verif/$m"; done
 } | xargs -P $P -L 1 sh -c 'r=$(tools/sens.py $2 $3 --lines 0 | tail -1); echo "$0 $1: $r"'
